@@ -34,7 +34,9 @@ fn arg<'a>(args: &'a [String], name: &str) -> Option<&'a str> {
     args.iter().position(|a| a == name).and_then(|i| args.get(i + 1)).map(|s| s.as_str())
 }
 
-const BIG_STACK: usize = 1 << 30;
+fn big_stack() -> usize {
+    std::env::var("SVVERIF_STACK_MB").ok().and_then(|x| x.parse::<usize>().ok()).unwrap_or(1024) << 20
+}
 
 fn main() {
     let args: Vec<String> = std::env::args().collect();
@@ -152,7 +154,7 @@ fn run(args: &[String]) {
         let propc = prop.clone();
         let r = std::thread::scope(|s| {
             let h = std::thread::Builder::new()
-                .stack_size(BIG_STACK)
+                .stack_size(big_stack())
                 .name(format!("case-{}", idx))
                 .spawn_scoped(s, || {
                     let ctxr = &mut ctx;
